@@ -478,6 +478,34 @@ def c01n_run(tid, wcfg, cfgline, state, code, sub, extra_data):
     return rec.lines
 
 
+def c01u_run(tid, wcfg, cfgline, state, data):
+    """a frame of type UPDATE and at least the minimum length, whatever its content, is an UPDATE event for the RFC table:
+    FSM error before Established, no reaction of the state machine in Established (C01)"""
+    w = World(wcfg)
+    rec = R.Recorder(w, tid, cfgline)
+    first_session(w, rec)
+    if state in ('OPENCONFIRM', 'ESTABLISHED'):
+        rec.step({'k': 'msg', 'c': 1, 'm': 'OPEN', 'h': 90}, 1)
+    if state == 'ESTABLISHED':
+        rec.step({'k': 'msg', 'c': 1, 'm': 'KA'}, 1)
+    w.budget = BUDGET
+    rec.step({'k': 'data', 'c': 1, 'hex': data.hex(), 'cls': 'UPD_BAD', 'm': 'FUZZ_UPD'}, 1, data=data, extra={'flen': len(data)})
+    w.budget = None
+    return rec.lines
+
+
+def c01u_jobs(tier, seed):
+    wcfg = dict(tick=10.0, crt=20, idle=20, hold=90, las=65001, ras=65002)
+    jobs = []
+    frames = [d for cls, d in fuzz_inputs(world.REPO, tier, seed) if cls == 'FUZZ_UPD' and len(d) >= 23]
+    for i, d in enumerate(frames):
+        for state in ('OPENSENT', 'OPENCONFIRM', 'ESTABLISHED'):
+            if tier == 'quick' and (i + len(state)) % 3:
+                continue
+            jobs.append(('c01u', wcfg, state, d))
+    return jobs
+
+
 def c01n_jobs(tier, seed):
     wcfg = dict(tick=10.0, crt=20, idle=20, hold=90, las=65001, ras=65002)
     jobs = []
@@ -666,6 +694,9 @@ def run_jobs(args):
             elif job[0] == 'c18q':
                 _, wcfg, sd = job
                 lines = c18q_run(tid, wcfg, cfgline_fn(wcfg), sd)
+            elif job[0] == 'c01u':
+                _, wcfg, state, data = job
+                lines = c01u_run(tid, wcfg, cfgline_fn(wcfg), state, data)
             elif job[0] == 'c01n':
                 _, wcfg, state, code, sub, xd = job
                 lines = c01n_run(tid, wcfg, cfgline_fn(wcfg), state, code, sub, xd)
